@@ -279,6 +279,39 @@ API_CALLS = ["get_definitions", "forcefield", "create_handler", "mol2", "psize",
              "debump_api", "parser"]
 
 
+CLOCKS = [
+    946_684_800.0,      # 2000-01-01 00:00:00 UTC (the reference worlds' epoch)
+    951_782_399.5,      # 2000-02-28 23:59:59.5  (crosses midnight during the run)
+    1_709_251_199.0,    # 2024-02-29 23:59:59    (leap day, month boundary)
+    2_147_483_646.0,    # 2038-01-19 03:14:06    (32-bit rollover during the run)
+    1_234_567_890.0, 4_102_444_799.9, 86_399.2, 1_790_000_000.0,
+]
+
+
+def gen_ambient(rng):
+    """Things the PQR must not depend on (C11: a function of input files and options only)."""
+    amb = {"clock": rng.choice(CLOCKS) + rng.choice([0.0, 0.0, 3600.0 * rng.randint(1, 9000)])}
+    r = rng.random()
+    if r < 0.3:
+        amb["cwd"] = "scratch"
+        amb["rel"] = rng.random() < 0.7
+    elif r < 0.5:
+        amb["cwd"] = "root"
+    if rng.random() < 0.3:
+        amb["tz"] = rng.choice(["UTC", "Pacific/Kiritimati", "America/St_Johns", "Asia/Kathmandu"])
+    if rng.random() < 0.2:
+        amb["lang"] = rng.choice(["C", "POSIX", "de_DE.UTF-8", "tr_TR.UTF-8", "C.UTF-8"])
+    if rng.random() < 0.35:
+        amb["in_name"] = rng.choice(["1ABC", "structure.final.v2", "a", "INPUT", "x y",
+                                     "zzzzzzzzzzzzzzzzzzzzzzzzzzzzzzzzzzzz", "9xyz_model-1"])
+    if rng.random() < 0.3:
+        amb["out_name"] = rng.choice(["result.pqr", "OUT.PQR", "o", "out.final.pqr", "x y.pqr",
+                                      "1abc_amber_ph7.pqr"])
+    if rng.random() < 0.2:
+        amb["junk"] = True
+    return amb
+
+
 def gen_history(seed, pool):
     rng = random.Random(seed)
     mine = rng.sample(range(len(pool)), min(len(pool), rng.randint(2, 5)))
@@ -324,6 +357,8 @@ def gen_history(seed, pool):
         op = {"op": "run", "cfg_index": ci, "entry": entry}
         if entry != "main_driver_reuse" and rng.random() < 0.35:
             op["stable"] = True
+        if entry != "main_driver_reuse" and rng.random() < 0.6:
+            op["ambient"] = gen_ambient(rng)
         ops.append(op)
         done.append(ci)
     # make sure the history is non-trivial: at least one revisit after something else
@@ -423,7 +458,8 @@ def job_history(job, scratch):
             outdir = None
             idx = 0
         os.makedirs(scdir, exist_ok=True)
-        o = c12.execute_run({"cfg": cfg, "entry": entry, "faults": op.get("faults")},
+        o = c12.execute_run({"cfg": cfg, "entry": entry, "faults": op.get("faults"),
+                             "ambient": op.get("ambient")},
                             scdir, idx, None, outdir=outdir, use_monitor=False,
                             ns_cache=ns_cache)
         data = runner.read_bytes(o["paths"]["output"])
@@ -537,6 +573,8 @@ def main(tier, seed):
         if fi % 2:
             for op in ops:
                 op["stable"] = True
+        for op in ops[len(ops) // 2:]:
+            op["ambient"] = gen_ambient(r3)
         hists.append({"id": f"hf{fi}", "kind": "c11.history", "seed": seed * 1_000_003 + 777 + fi,
                       "ops": ops, "pool": sub})
     for h in range(n_hist):
